@@ -61,9 +61,10 @@ IMPL_TIME_LIMIT = int(os.environ.get('VERIF_IMPL_TIME_LIMIT', '20'))
 
 
 class time_limit:
-    """SIGALRM watchdog around one call into the implementation (main thread only; a no-op elsewhere).
-    The proved model terminates on every input (structural recursion on fuel); a call into the code that
-    does not is reported as `ERR HANG`, which no model answer equals."""
+    """Watchdog around one call into the implementation (main thread only; a no-op elsewhere), counting the
+    CPU time of this process (ITIMER_VIRTUAL), so that a loaded machine cannot make a terminating call look
+    like a hang. The proved model terminates on every input (structural recursion on fuel); a call into the
+    code that does not is reported as `ERR HANG`, which no model answer equals."""
 
     hangs = 0      # per process; after two hangs the limit drops so that a looping change cannot stall a check for hours
 
@@ -73,22 +74,22 @@ class time_limit:
 
     def _fire(self, signum, frame):
         time_limit.hangs += 1
-        raise ImplHang('no answer within %d s' % self.seconds)
+        raise ImplHang('no answer within %d s of CPU time' % self.seconds)
 
     def __enter__(self):
         import signal
         import threading
         if threading.current_thread() is threading.main_thread():
-            self.old = signal.signal(signal.SIGALRM, self._fire)
-            signal.alarm(self.seconds)
+            self.old = signal.signal(signal.SIGVTALRM, self._fire)
+            signal.setitimer(signal.ITIMER_VIRTUAL, self.seconds)
             self.armed = True
         return self
 
     def __exit__(self, *exc):
         if self.armed:
             import signal
-            signal.alarm(0)
-            signal.signal(signal.SIGALRM, self.old)
+            signal.setitimer(signal.ITIMER_VIRTUAL, 0)
+            signal.signal(signal.SIGVTALRM, self.old)
         return False
 
 
